@@ -111,8 +111,13 @@ OnRecv(st, e) ==
   ELSE LET mk == MarkedX(Ids, RR, NoPtr, st.rec, e.items, e.t)
            nr == IngestX(Ids, RR, NoPtr, st.rec, e.items, e.t)
            k == IF st.lk.on /\ ~st.lk.done THEN Learn(st.lk, mk, e.items, 1, e.t) ELSE st.lk
+           \* what the lookup MAY report in addition: an address record that precedes the SRV record of its host in the same
+           \* datagram (whether the lookup takes it over depends on the order in which it looks at the records of a datagram,
+           \* which the property leaves open); what it MUST know (addrs, done) follows the datagram order
+           srvFirst == SelectSeq(e.items, LAMBDA it : Kind(it.id) = "srv") \o SelectSeq(e.items, LAMBDA it : Kind(it.id) # "srv")
+           kMay == IF st.lk.on /\ ~st.lk.done THEN Learn(st.lk, mk, srvFirst, 1, e.t) ELSE st.lk
        IN [st EXCEPT !.lastDid = e.did, !.lastProc = e.t, !.lastQU = FALSE, !.rec = nr,
-                     !.lk = [k EXCEPT !.done = st.lk.done \/ (st.lk.on /\ Complete(k))]]
+                     !.lk = [k EXCEPT !.done = st.lk.done \/ (st.lk.on /\ Complete(k)), !.seen = @ \cup kMay.seen]]
 
 OnQuery(st, e) ==
   IF Bad(~st.lk.on \/ st.lk.pend # <<>>, "C13_LookupShape") THEN Fail(st, "C13_LookupShape")
